@@ -78,7 +78,7 @@ def gen_args(rng):
 def run(ctx):
     quick = ctx.tier == "quick"
     rng = random.Random(ctx.seed)
-    n = 900 if quick else 12000
+    n = 900 if quick else 20000
     ctx.rule = ("%d seeded argument vectors + all single-flag ones over: no/unknown subcommand, a flag before the subcommand, characters x --length {-1..64, "
                 "non-numeric} x --allow/--require/--exclude class lists (blanks after commas, unknown and empty names, empty value) x --entropy x unknown flags; "
                 "words x --size x --list {words, syllables, bogus} x --file {clean, duplicates, twins+hyphenated+multi-byte, odd layout, uncapitalisable, "
